@@ -19,6 +19,8 @@ def check(run):
     lexfam.histories(run, 4 if thorough else 3, "C10")
     lexfam.trace_validate(run, 10000 if thorough else 1500, 200 if thorough else 120, run.seed, "OpsBuiltin", "C10")
     lexfam.trace_validate(run, 4000 if thorough else 500, 120, run.seed + 1, "OpsExtended", "C10")
+    if thorough:
+        lexfam.simulate(run)
     run.exhaustive = False
     run.assumptions += ["hook H1 (verif_hooks::tokenize) drives the tokenizer exactly as Parser does", "TLC, the JSON encodings and the harness's comparison code are trusted",
                         "number tokens: span and validity only (the value is C09's)"]
